@@ -31,7 +31,7 @@ def run_native(run, tier):
                     reval[s.name] = taco.build(new_inputs[s.name], dims[s.name], modes, ordering)[1]
             hist = cdrv.NativeCase(code, native.tensor_specs(case, k.problem), ["assemble", "compute", "compute"], {2: reval})
             ev1 = cdrv.NativeCase(code, native.tensor_specs(case, k.problem), ["evaluate"])
-            case2 = engine.Case(case.assignment, case.formats, case.sizes, new_inputs, case.capacity, case.origin, case.target, case.tree)
+            case2 = engine.Case(case.assignment, case.formats, case.sizes, new_inputs, case.capacity, case.origin, case.target, case.tree, case.direct_problem)
             ev2 = cdrv.NativeCase(code, native.tensor_specs(case2, k.problem), ["evaluate"])
             items.append((case, hist, ev1, ev2))
         b = 8
